@@ -183,6 +183,11 @@ def judge (d : RuleDesc) (preds : List (Nat × String)) (tbl : List (Nat × Byte
 def step (_ : Unit) (line : String) : Unit × String :=
   let r : String :=
     match words line with
+    | ["B", n, h] => match parseHex n, parseHex h with
+      | some nm, some x => (match Spec.singleByteTextOk nm x with
+        | some b => boolStr b
+        | none => "unknown")
+      | _, _ => "bad-op"
     | ["W", h] => match parseHex h with
       | some x => boolStr (Spec.utf8WellFormed x)
       | none => "bad-op"
